@@ -182,7 +182,9 @@ static cfg_opt_t *cfg_getopt_leaf(cfg_t *cfg, const char *name)
 {
 	unsigned int i;
 
-	for (i = 0; cfg->opts && cfg->opts[i].name; i++) {
+	for (i = 0; cfg->opts && cfg->opts[i].name; i++)
+		CFG_VERIF_LOOP(getopt_leaf)
+	{
 		if (is_set(CFGF_NOCASE, cfg->flags)) {
 			if (strcasecmp(cfg->opts[i].name, name) == 0)
 				return &cfg->opts[i];
